@@ -189,14 +189,8 @@ def run(prog, rep, tier):
     mla = prog.crates['mla']
     # ---------------- R07.1 key / nonce provenance
     ECFG = 'layers::encrypt::EncryptionConfig'
-    ctors = []
-    for body in mla.bodies:
-        for b in body.blocks:
-            if b.cleanup:
-                continue
-            for i, s in enumerate(b.stmts):
-                if s.kind == 'assign' and s.rv.r == 'aggregate' and s.rv.j.get('adt') == ECFG:
-                    ctors.append((body, b.idx, i, s))
+    from .c03 import config_constructions
+    ctors = [(body, b.idx, b.stmts.index(s), s) for (_b0, body, b, s) in config_constructions(prog)]     # (private helpers spliced in)
     rep.floor('R07.1', len(ctors), 1, 'constructions of EncryptionConfig')
     for body, bb, i, s in ctors:
         rep.fn(body)
@@ -302,7 +296,9 @@ def run(prog, rep, tier):
             rep.ob('R07.2', okp, 'R07.2|%s|public-from-ephemeral' % sk.nkey, 'public = PublicKey::from(&ephemeral)' if okp else 'stored public key is not computed from the ephemeral secret', sk.loc(pubs[0].idx) if pubs else sk.loc())
             dks = [b for b in sk.calls() if cnorm(b.term).endswith('derive_key')]
             # per-recipient work may sit in a closure (`recipients.iter().map(|key| ..)`) that captures the ephemeral secret
-            cdks = [(c, b) for c in prog.closures_of(sk) for b in c.calls() if cnorm(b.term).endswith('derive_key')]
+            # (or in a private per-recipient helper called from that closure: spliced in)
+            from ..inline import inlined_body as _inl
+            cdks = [(c, b) for c in [_inl(prog, c_, depth=1, skip=('derive_key',)) for c_ in prog.closures_of(sk)] for b in c.calls() if cnorm(b.term).endswith('derive_key')]
             rep.floor('R07.2.dk', len(dks) + len(cdks), 1, 'derive_key calls in store_key_for_multi_recipients')
             for c, d in cdks:
                 okd = d.term.args[0].place is not None and must_derive_captured(prog, sk, c, d.term.args[0].place[0], is_eph)
